@@ -99,6 +99,15 @@ def all_cases():
         yield {"id": ("norm-of-shifted", o, "+R"), "rows": (("bin", "+", ("norm", d, o), R),)}
         yield {"id": ("norm", o, "both-rows"), "rows": (("norm", V3, 1), ("norm", V3, 2))}
         yield {"id": ("norm", o, "squared"), "rows": (("bin", "**", ("norm", V3, o), ("c", 2)),)}
+    # norms under every outer function / power (derivative rules that combine the norm value only with constants)
+    for o in (1, 2):
+        for nrm, tag in ((("norm", V3, o), "v"), (("norm", ("vbin", "-", V3, ("arr", (0.5, 0.0, 2.0))), o), "v-shift")):
+            for f in ("log", "sqrt", "exp", "tanh", "sin", "abs", "log2", "atan"):
+                yield {"id": ("norm-under", o, tag, f), "rows": (("un", f, nrm),)}
+            for k in (0.5, -0.5, -1, 1.5, 3, -2):
+                yield {"id": ("norm-power", o, tag, k), "rows": (("bin", "**", nrm, ("c", k)),)}
+            yield {"id": ("norm-recip", o, tag), "rows": (("bin", "/", ("c", 1), nrm),)}
+            yield {"id": ("norm-times-norm", o, tag), "rows": (("bin", "*", nrm, nrm), ("un", "log", nrm))}
     for o in (1, 2):
         n = ("norm", V3, o)
         yield {"id": ("norm", o, "alone"), "rows": (n,), "norm": o}
